@@ -71,6 +71,14 @@ class _ArmAll:
             _RandomFaults(d)()
 
 
+class _SlowRepair(PartProcessor):
+    '''A machine whose repair takes 5 time units (module level: picklable): its work order is still in progress when a
+    short horizon ends, so the returned System carries the maintainer's pending FINISH_WORK event.'''
+
+    def get_work_order_duration(self, tag):
+        return 5
+
+
 def build_model(kind):
     '''Builds a model in the ACTIVE system from library classes only (default PartGenerator: part ids come from the
     global counter).  Merge topologies make the random tie-breaks decide outcomes.'''
@@ -97,7 +105,7 @@ def build_model(kind):
         mt = Maintainer('mt', 1)
         s = Source('S', PartGenerator('p'), 1)
         m1 = PartProcessor('M1', [s], 1)
-        m2 = PartProcessor('M2', [s], 1)
+        m2 = _SlowRepair('M2', [s], 1)
         for m in (m1, m2):
             m.add_shutdown_callback(_Repair(mt))
         Sink('K', [m1, m2], collect_parts=True)
@@ -222,8 +230,9 @@ def one_run(kind, seed, offset, horizon):
 
 # ----------------------------------------------------------------------------- simulate_multiple_times
 
-def sim_fn(system, index, kind, horizon):
-    '''The user's simulation function (module level, picklable).'''
+def sim_fn(system, index, kind, horizon=0.5):
+    '''The user's simulation function (module level, picklable); the horizon is passed as a KEYWORD argument through
+    simulate_multiple_times (its default is deliberately a different one).'''
     build_model(kind)
     prepare(system, kind)
     system.sim_index = index
@@ -239,7 +248,10 @@ class FakeFuture:
 
     def run(self):
         if not self.ran:
-            self.value = self.fn(*self.args, **self.kwargs)
+            import pickle
+            # what a worker process does: arguments and result cross the process boundary pickled
+            fn, args, kwargs = pickle.loads(pickle.dumps((self.fn, self.args, self.kwargs)))
+            self.value = pickle.loads(pickle.dumps(fn(*args, **kwargs)))
             self.ran = True
 
     def result(self, timeout=None):
@@ -289,7 +301,7 @@ def smt_once(kind, horizon, n, max_processes, order):
         if order is not None:
             sysmod.concurrent.futures.ProcessPoolExecutor = FakeExecutor
         with _Quiet():
-            res = System.simulate_multiple_times(sim_fn, n, max_processes, kind, horizon)
+            res = System.simulate_multiple_times(sim_fn, n, max_processes, kind, horizon=horizon)
         return res
     finally:
         sysmod.concurrent.futures.ProcessPoolExecutor = real
@@ -379,7 +391,7 @@ def run_repro_job(job, seed):
                             try:
                                 Asset._id_counter = 0
                                 with _Quiet():
-                                    ref[i] = normalise(System._simulation_helper(sim_fn, i, kind, horizon))
+                                    ref[i] = normalise(System._simulation_helper(sim_fn, i, kind, horizon=horizon))
                             finally:
                                 Asset._id_counter, System._instance = saved[0], saved[1]
                                 random.setstate(saved[2])
